@@ -46,7 +46,7 @@ ElemNodes(x) == CASE x.e = "text" -> <<T(TX[x.i])>>
 \* -------------------------------------------------------------------- skel
 Bit(b, i) == (b \div (2^(i - 1))) % 2 = 1
 Tx(x, i) == T(TX[((x.tx + i) % Len(TX)) + 1])
-NBits(k) == CASE k = 1 -> 8 [] k = 2 -> 6 [] k = 3 -> 6 [] k = 4 -> 2 [] k = 5 -> 2 [] k = 6 -> 4 [] k = 7 -> 6 [] k = 8 -> 6 [] k = 9 -> 6 [] k = 10 -> 6
+NBits(k) == CASE k = 1 -> 8 [] k = 2 -> 6 [] k = 3 -> 6 [] k = 4 -> 2 [] k = 5 -> 2 [] k = 6 -> 4 [] k = 7 -> 8 [] k = 8 -> 6 [] k = 9 -> 6 [] k = 10 -> 6
 SkelNodes(x) ==
   LET b(i) == Bit(x.bits, i) IN
   CASE x.k = 1 ->      \* T {% if true %} T {{ v3 }} T {% else %} T {% endif %} T
@@ -66,7 +66,8 @@ SkelNodes(x) ==
     [] x.k = 6 ->      \* T {% if false %} T {% endif %} T    (nothing is rendered inside)
          <<Tx(x, 0)>> \o W(b(1), [t |-> "if", branches |-> <<[c |-> Lit(Bool(FALSE)), body |-> In(b(2), <<Tx(x, 1)>>, b(3))]>>], b(4)) \o <<Tx(x, 2)>>
     [] x.k = 7 ->      \* T {% case 1 %} {% when 1 %} T {{ v2 }} {% endcase %} T
-         <<Tx(x, 0)>> \o W(b(1), [t |-> "case", e |-> Lit(IntV(1)), pre |-> <<>>,
+         \* (the blank text between case and the first when is never output; bits 7, 8: {% case 1 -%} and {%- when 1 %})
+         <<Tx(x, 0)>> \o W(b(1), [t |-> "case", e |-> Lit(IntV(1)), pre |-> In(b(7), <<T(<<32, 10, 32>>)>>, b(8)),
               whens |-> <<[vals |-> <<Lit(IntV(1))>>, body |-> In(b(2), <<Tx(x, 1)>> \o W(b(3), Ob(Var(VN(2))), b(4)), b(5))]>>], b(6)) \o <<Tx(x, 2)>>
 
     [] x.k = 8 ->      \* T {% comment %}c{% endcomment %} T {{ v2 }} T {% comment %}c{% endcomment %} T : a block that leaves
